@@ -1,6 +1,6 @@
 (* C07, part 2b -- resolution, reference creation and histories keep [produced_wf].  Statements only. *)
 From UP Require Import Base.Chars Model.Uri.
-From UP Require Import Model.Parse Model.Resolve Model.Shorten Model.Normalize Model.History Spec.Reread Proofs.RereadResolve. From UP Require Model.Recompose.
+From UP Require Import Model.Parse Model.Resolve Model.Shorten Model.Normalize Model.History Spec.Reread Proofs.RereadResolve Proofs.RereadNormalize Proofs.RereadAll. From UP Require Model.Recompose.
 
 (* resolution, reference creation, histories *)
 (* uriAddBaseUriExMm: a successful resolution of an object that reads back as itself against another
@@ -53,3 +53,40 @@ Example C07_remove_base_guards_used :
   /\ Recompose.to_text (snd (remove_base true src2 base)) = [47; 46; 47; 47; 97]%N
   /\ produced_wfb (snd (remove_base true src2 base)) = true.
 Proof. vm_compute. repeat split. Qed.
+
+(* ---- the property for every reachable object -------------------------------------------------
+   [norm_outside_findings mask u]: the normalization step is outside the two known defect shapes
+   (D7b [exposes_colon], D14 [exposes_dslash]; Props/C07norm.v shows they are exact and refutes the
+   statement inside them).  No other hypothesis: parse, resolve, create-reference, make-owner steps
+   are unrestricted, and failed steps are part of the histories. *)
+Theorem C07_reachable_wf : forall ops,
+  normalize_steps_ok norm_outside_findings empty_store ops ->
+  forall i u, run empty_store ops i = Some u -> produced_wf u.
+Proof. exact history_all_produced_wf. Qed.
+Print Assumptions C07_reachable_wf.
+
+(* ... recomposes to a text the parser accepts and reads back with the same scheme, authority
+   (user info, host, port), path text, query and fragment *)
+Theorem C07_reachable_reread : forall ops,
+  normalize_steps_ok norm_outside_findings empty_store ops ->
+  forall i u, run empty_store ops i = Some u ->
+  exists v, parse (Recompose.to_text u) = POk v /\ same_meaning u v.
+Proof. exact history_all_reread. Qed.
+Print Assumptions C07_reachable_reread.
+
+(* ... and a host never coexists with the absolute-path flag *)
+Theorem C07_reachable_host_flag : forall ops,
+  normalize_steps_ok norm_outside_findings empty_store ops ->
+  forall i u, run empty_store ops i = Some u -> hostText u <> None -> absolutePath u = false.
+Proof. exact history_all_host_flag. Qed.
+Print Assumptions C07_reachable_host_flag.
+
+(* non-vacuity: a history with every kind of step (and a failing one) meets the side condition
+   ("a/./b:c" resolved against "s:/x/y", normalized, made owner, turned back into a reference) *)
+Example C07_reachable_nonvacuous :
+  let ops := [SParse 0 [97; 47; 46; 47; 98; 58; 99]%N; SParse 1 [115; 58; 47; 120; 47; 121]%N;
+              SAddBase 2 0 1 false; SNormalize 2 63%N; SMakeOwner 2; SRemoveBase 3 2 1 false;
+              SParse 4 [37]%N; SFree 0] in
+  normalize_steps_ok norm_outside_findings empty_store ops
+  /\ run empty_store ops 2 <> None /\ run empty_store ops 3 <> None /\ run empty_store ops 4 = None.
+Proof. vm_compute. repeat split; try reflexivity; discriminate. Qed.
